@@ -66,6 +66,21 @@ func (eng *Engine) VerifyFunction(fn *ssa.Function, con *Contract) (u *Unit) {
 		fr.params = append(fr.params, v)
 		vars[con.Params[i]] = v
 	}
+	// a closure under contract: its captured variables are arbitrary allocated cells; the contract
+	// may name them (their value at entry)
+	for _, fv := range fn.FreeVars {
+		n := u.freshConst("fv$"+fv.Name(), u.sortOf(fv.Type()))
+		if wf := u.wfValue(n, fv.Type(), 0); wf != "true" {
+			u.assume(wf)
+		}
+		bv := Val{T: n, Ty: fv.Type()}
+		u.assume(fmt.Sprintf("(not (= %s 0))", n))
+		x.assumeAllocated(st, bv)
+		fr.bind = append(fr.bind, bv)
+		if _, clash := vars[fv.Name()]; !clash {
+			vars[fv.Name()] = x.loadAddr(st, x.deref(bv), "true")
+		}
+	}
 	entry := st.clone()
 	x.entry = entry
 	fr.entrySt = entry
